@@ -164,3 +164,16 @@ Example kasumi_f8_bits_test :
   kasumi_f8 k128 (firstn 8 iv16) m 21 5 <> m
   /\ kasumi_f8 k128 (firstn 8 iv16) (kasumi_f8 k128 (firstn 8 iv16) m 21 5) 21 5 = m.
 Proof. vm_compute. split; [discriminate|reflexivity]. Qed.
+
+(* SNOW3G-UEA2 bit path, in place.  R1: 21 bits at bit offset 13 (window ends mid-byte):
+   exact involution.  R2: 21 bits at offset 8: message bits restored, trailing bits of the
+   last byte clobbered by key stream.  R3 (excluded from the theorem): 19 bits at offset 13,
+   the window ends on a byte boundary and the OR quirk makes in-place operation lossy. *)
+Example snow3g_bits_tests :
+  let m := firstn 9 (skipn 37 m100) in
+  let f bl bo x := snow3g_uea2_inplace k128 iv16 x bl bo in
+  f 21%N 13%N m <> m /\ f 21%N 13%N (f 21%N 13%N m) = m
+  /\ f 21%N 8%N (f 21%N 8%N m) <> m
+  /\ snow3g_take_bits 21 (skipn 1 (f 21%N 8%N (f 21%N 8%N m))) = snow3g_take_bits 21 (skipn 1 m)
+  /\ f 19%N 13%N (f 19%N 13%N m) <> m.
+Proof. vm_compute. repeat split; try discriminate; reflexivity. Qed.
